@@ -2,6 +2,7 @@
 import itertools
 
 import gen
+import bigfam
 import mcfam
 from gen import P, Q, TR, FA, L0, M0
 
@@ -108,9 +109,43 @@ def run(ctx):
     ctl_leaves = (P, Q, ('not', P), TR, ('E', ('X', Q)), ('A', ('X', P)))
     fam_t = [{'logic': 'CTL', 'K': gen.rand_kripke(rnd, rnd.choice([3, 4])), 'f': gen.tall_path(rnd, rnd.randint(98, 140), leaves=ctl_leaves, base=rnd.choice(ctl_bases)),
               'late_edge': False} for _ in range(24 if q else 300)]
+    # medium structures (6-10 states, several SCCs, tails, sinks) under the SCC- and reachability-based operators
+    fam_m = []
+    for _ in range(2500 if q else 40000):
+        n = rnd.randint(6, 10)
+        K = gen.rand_kripke(rnd, n, density=rnd.choice([0.12, 0.2, 0.3]))
+        if rnd.random() < 0.5:      # one atom almost everywhere, the other rare
+            hi, lo = rnd.choice([('p', 'q'), ('q', 'p')])
+            K = dict(K, L=[sorted(([hi] if rnd.random() < 0.8 else []) + ([lo] if rnd.random() < 0.15 else [])) for _i in range(n)])
+        a, b = rnd.choice(M0), rnd.choice(M0 + gen.ctl_q([P])[:6])
+        f = rnd.choice(gen.ctl_q([a], [b]))
+        if rnd.random() < 0.3:
+            f = rnd.choice(gen.ctl_q([f], [rnd.choice(M0)]))
+        fam_m.append({'logic': 'CTL', 'K': K, 'f': f, 'naming': rnd.choice(['int', 'str', 'tuple', 'obj']), 'shuf': rnd.randrange(1 << 30)})
+    # shaped structures: a cycle of p-states, a p-tail that leaves the cycle and ends in a non-p sink, optional chords and a
+    # second cycle - under every presentation order (the SCC routine's result must not depend on where the search starts)
+    for _ in range(600 if q else 10000):
+        k, t = rnd.choice([3, 3, 4]), rnd.choice([2, 2, 3])
+        n = k + t + 1
+        cyc, tail, sink = list(range(k)), list(range(k, k + t)), k + t
+        R = {(cyc[i], cyc[(i + 1) % k]) for i in range(k)} | {(rnd.choice(cyc), tail[0])} | {(tail[i], tail[i + 1]) for i in range(t - 1)}
+        R |= {(tail[-1], sink), (sink, sink)}
+        if rnd.random() < 0.3:
+            R.add((rnd.choice(tail), rnd.choice(cyc + tail)))
+        if rnd.random() < 0.3:
+            R.add((rnd.choice(cyc), rnd.choice(cyc)))
+        L = [['p'] for _i in range(k + t)] + [['q']]
+        if rnd.random() < 0.3:
+            L[rnd.randrange(k + t)] = ['p', 'q']
+        f = rnd.choice([('E', ('G', P)), ('A', ('F', ('not', P))), ('E', ('U', P, Q)), ('A', ('G', ('E', ('F', Q)))), ('E', ('G', ('or', P, Q))),
+                        ('A', ('U', P, Q)), ('E', ('X', ('E', ('G', P)))), ('not', ('E', ('G', P))), ('E', ('R', Q, P))])
+        fam_m.append({'logic': 'CTL', 'K': {'n': n, 'R': [list(e) for e in sorted(R)], 'L': L}, 'f': f,
+                      'naming': rnd.choice(['int', 'str', 'tuple', 'obj']), 'shuf': rnd.randrange(1 << 30)})
     memo_binding(ctx, [dict(c) for c in rnd.sample(fam_ii + fam_iii, 1500 if q else 20000)])
     mcfam.run_families(ctx, [('operand_complete', fam_i), ('scope', fam_ii), ('random', fam_iii),
-                             ('text_or_cast', fam_iv), ('print_collision', fam_pc), ('tall', fam_t)])
+                             ('text_or_cast', fam_iv), ('print_collision', fam_pc), ('tall', fam_t), ('medium', fam_m)])
+    # large lassos (LargeShapes.tla): structures with more than a thousand states, answers by closed forms
+    bigfam.run_big(ctx, bigfam.cases(rnd, ['mc'], 8 if q else 80, logics=('CTL',)))
 
 
 def memo_binding(ctx, cases):
@@ -138,4 +173,6 @@ def memo_binding(ctx, cases):
 
 
 def replay(ctx, path):
+    if bigfam.maybe_replay(ctx, path):
+        return
     mcfam.replay_cases(ctx, path)
